@@ -44,6 +44,40 @@ pub enum ZOp {
 pub struct ZCase {
     pub shared: bool,
     pub ops: Vec<ZOp>,
+    /// poll with hand-rolled wakers that all carry the same data pointer and differ only in their
+    /// vtable (one per subscriber slot): not `will_wake`-equal, yet equal to anything that looks
+    /// at the data pointer alone
+    #[serde(default)]
+    pub slot_wakers: bool,
+}
+
+mod slot {
+    use std::sync::atomic::{AtomicUsize, Ordering};
+    use std::task::{RawWaker, RawWakerVTable, Waker};
+    pub const SLOTS: usize = 6;
+    thread_local! {
+        // one counter array per runner thread; all wakers of that thread share its address as data
+        pub static COUNTS: [AtomicUsize; SLOTS] = Default::default();
+    }
+    macro_rules! vt {
+        ($i:expr) => {{
+            unsafe fn clone(d: *const ()) -> RawWaker {
+                RawWaker::new(d, &VT[$i])
+            }
+            unsafe fn wake(d: *const ()) {
+                (*(d as *const [AtomicUsize; SLOTS]))[$i].fetch_add(1, Ordering::SeqCst);
+            }
+            unsafe fn drop(_: *const ()) {}
+            RawWakerVTable::new(clone, wake, wake, drop)
+        }};
+    }
+    pub static VT: [RawWakerVTable; SLOTS] = [vt!(0), vt!(1), vt!(2), vt!(3), vt!(4), vt!(5)];
+    pub fn waker(i: usize) -> Waker {
+        COUNTS.with(|c| unsafe { Waker::from_raw(RawWaker::new(c as *const _ as *const (), &VT[i % SLOTS])) })
+    }
+    pub fn count(i: usize) -> usize {
+        COUNTS.with(|c| c[i % SLOTS].load(Ordering::SeqCst))
+    }
 }
 
 enum Own {
@@ -56,6 +90,8 @@ struct SubM {
     sub: Subscriber<()>,
     unseen: bool,
     pending: Option<PendingMark>,
+    /// slot-waker mode: wake count of this subscriber's slot when its last poll returned Pending
+    slot_pending: Option<usize>,
 }
 
 struct World {
@@ -64,6 +100,7 @@ struct World {
     own: Own,
     subs: Vec<SubM>,
     closed: bool,
+    slot_wakers: bool,
     notified_while_pending: u32,
     not_notified: u32,
 }
@@ -88,6 +125,12 @@ impl World {
     fn after_notify(&mut self, what: &str, close: bool) -> R {
         for i in 0..self.subs.len() {
             self.subs[i].unseen = true;
+            if let Some(at) = self.subs[i].slot_pending {
+                self.notified_while_pending += 1;
+                let props: &[Prop] = if close { &[Prop::C02, Prop::C03] } else { &[Prop::C02] };
+                let woken = slot::count(i) > at;
+                self.check(woken, props, || format!("subscriber {i} was Pending (waker: shared data pointer, own vtable), but {what} did not wake it"))?;
+            }
             if let Some(p) = self.subs[i].pending.clone() {
                 self.notified_while_pending += 1;
                 let props: &[Prop] = if close { &[Prop::C02, Prop::C03] } else { &[Prop::C02] };
@@ -98,10 +141,17 @@ impl World {
     }
     fn poll(&mut self, i: usize) -> R {
         let flag = Flag::new();
-        let w = flag_waker(&flag);
+        let w = if self.slot_wakers { slot::waker(i) } else { flag_waker(&flag) };
         let mut cx = Context::from_waker(&w);
         let r = Pin::new(&mut self.subs[i].sub).poll_next(&mut cx);
         let prev = self.subs[i].pending.take();
+        let slot_prev = self.subs[i].slot_pending.take();
+        if self.slot_wakers {
+            if let (Some(at), false) = (slot_prev, matches!(r, Poll::Pending)) {
+                let woken = slot::count(i) > at;
+                self.check(woken, &[Prop::C02], || format!("subscriber {i}: ready although the waker of its previous Pending poll (shared data pointer, own vtable) was never woken"))?;
+            }
+        }
         let exp_end = self.closed;
         let exp_item = !self.closed && self.subs[i].unseen;
         match r {
@@ -116,7 +166,11 @@ impl World {
             Poll::Pending => {
                 self.check(!exp_end, &[Prop::C03, Prop::C02], || format!("subscriber {i}: Pending although every owner was dropped"))?;
                 self.check(!exp_item, &[Prop::C01, Prop::C02], || format!("subscriber {i}: Pending although a notifying update happened that it has not observed"))?;
-                self.subs[i].pending = Some(PendingMark::new(&flag));
+                if self.slot_wakers {
+                    self.subs[i].slot_pending = Some(slot::count(i));
+                } else {
+                    self.subs[i].pending = Some(PendingMark::new(&flag));
+                }
             }
         }
         if !matches!(r, Poll::Pending) {
@@ -263,7 +317,7 @@ impl World {
                         }
                     }
                 };
-                self.subs.push(SubM { sub, unseen: reset, pending: None });
+                self.subs.push(SubM { sub, unseen: reset, pending: None, slot_pending: None });
             }
             ZOp::Poll(ix) => {
                 if let Some(i) = pick(ix, self.subs.len()) {
@@ -281,6 +335,7 @@ impl World {
                     self.subs[i].sub.reset();
                     self.subs[i].unseen = true;
                     self.subs[i].pending = None;
+                    self.subs[i].slot_pending = None;
                 }
             }
             ZOp::CloneSub(ix) => {
@@ -290,7 +345,7 @@ impl World {
                 if let Some(i) = pick(ix, self.subs.len()) {
                     let c = self.subs[i].sub.clone();
                     let unseen = self.subs[i].unseen;
-                    self.subs.push(SubM { sub: c, unseen, pending: None });
+                    self.subs.push(SubM { sub: c, unseen, pending: None, slot_pending: None });
                 }
             }
             ZOp::IntoShared => {
@@ -341,6 +396,7 @@ pub fn run(case: &ZCase, prop: Prop) -> R<CaseReport> {
         own: if case.shared { Own::S(vec![SharedObservable::new(())]) } else { Own::U(Observable::new(())) },
         subs: vec![],
         closed: false,
+        slot_wakers: case.slot_wakers,
         notified_while_pending: 0,
         not_notified: 0,
     };
@@ -362,6 +418,9 @@ pub fn run(case: &ZCase, prop: Prop) -> R<CaseReport> {
     }
     if w.not_notified > 0 {
         rep.classes.push("conditional_setter_that_must_not_notify");
+    }
+    if case.slot_wakers {
+        rep.classes.push("wakers_with_shared_data_pointer");
     }
     Ok(rep)
 }
@@ -386,7 +445,7 @@ pub fn case() -> BoxedStrategy<ZCase> {
         1 => Just(ZOp::CloneOwner),
         1 => Just(ZOp::DropOwner),
     ];
-    (any::<bool>(), proptest::collection::vec(op, 0..=24)).prop_map(|(shared, ops)| ZCase { shared, ops }).boxed()
+    (any::<bool>(), proptest::collection::vec(op, 0..=24), prop_oneof![2 => Just(false), 1 => Just(true)]).prop_map(|(shared, ops, slot_wakers)| ZCase { shared, ops, slot_wakers }).boxed()
 }
 
 // ---------------------------------------------------------------------------------------------
